@@ -19,6 +19,16 @@ def Approves (cfg : Cfg) (ev : Ev) (u : List Char) : Prop :=
   | some (.dresp u' sec _) => u' = u ∧ cfg.digestOf u = .digest sec
   | _ => False
 
+/-- the same for a checker that implements only `getPassword` (`gp`): the element carries the PLAIN pair
+(`u`, exactly the password `getPassword` returns for `u` with NoError), or a DIGEST-MD5 response naming `u` and
+computed from MD5(u:domain:that password) (`md5 u s`).  A user for whom `getPassword` reports an error — unknown,
+rejected, temporarily unavailable — is approved by nothing, whatever password (including the empty one) is used. -/
+def GpApproves (gp : List Char → PwRes) (md5 : List Char → List Char → List Char) (ev : Ev) (u : List Char) : Prop :=
+  match ev.payload with
+  | some (.creds u' p) => u' = u ∧ gp u = .ok p
+  | some (.dresp u' sec _) => u' = u ∧ ∃ s, gp u = .ok s ∧ sec = md5 u s
+  | _ => False
+
 /-- connection `c` has, somewhere in the history, sent an element that `Approves` user `u` -/
 def Approved (cfg : Cfg) (hist : List (Nat × Ev)) (c : Nat) (u : List Char) : Prop :=
   ∃ ev, (c, ev) ∈ hist ∧ Approves cfg ev u
@@ -1289,5 +1299,39 @@ theorem connStep_emit_jid_ne (cfg : Cfg) (fresh : List Char) (x : Conn) (ev : Ev
   · exact absurd h (not_emit_of_quiet hq st)
   · exact absurd h (not_emit_of_authHead ha st)
   · exact hj
+
+/-- what the library's default `checkPassword` / `getDigest` approve is exactly what `getPassword` approves -/
+theorem gpApproves_of_approves (domain : List Char) (gp : List Char → PwRes) (md5 : List Char → List Char → List Char)
+    (ev : Ev) (u : List Char) (h : Approves (Cfg.ofGetPassword domain gp md5) ev u) : GpApproves gp md5 ev u := by
+  unfold Approves at h
+  unfold GpApproves
+  cases hp : ev.payload with
+  | none => simp [hp] at h
+  | some p =>
+    cases p with
+    | creds u' pw =>
+      simp only [hp, Cfg.ofGetPassword, checkDefault] at h ⊢
+      refine ⟨h.1, ?_⟩
+      have h2 := h.2
+      cases hg : gp u with
+      | ok s =>
+        simp only [hg] at h2
+        by_cases hs : pw = s
+        · rw [hs]
+        · simp [hs] at h2
+      | nouser => simp [hg] at h2
+      | temp => simp [hg] at h2
+    | dresp u' sec q =>
+      simp only [hp, Cfg.ofGetPassword, digestDefault] at h ⊢
+      refine ⟨h.1, ?_⟩
+      have h2 := h.2
+      cases hg : gp u with
+      | ok s =>
+        simp only [hg, DigRes.digest.injEq] at h2
+        exact ⟨s, rfl, h2.symm⟩
+      | nouser => simp [hg] at h2
+      | temp => simp [hg] at h2
+    | empty => simp [hp] at h
+    | junk => simp [hp] at h
 
 end Qx.C16
